@@ -88,7 +88,7 @@ func merge(fieldPath string, destination, lastApplied, desired interface{}) (int
 			return nil, fmt.Errorf("lastApplied%s: expecting map[string]interface, got %T", fieldPath, lastApplied)
 		}
 		desVal, ok := desired.(map[string]interface{})
-		if !ok && desVal != nil {
+		if !ok && desired != nil {
 			return nil, fmt.Errorf("desired%s: expecting map[string]interface, got %T", fieldPath, desired)
 		}
 		return mergeObject(fieldPath, destVal, lastVal, desVal)
@@ -100,7 +100,7 @@ func merge(fieldPath string, destination, lastApplied, desired interface{}) (int
 			return nil, fmt.Errorf("lastApplied%s: expecting []interface, got %T", fieldPath, lastApplied)
 		}
 		desVal, ok := desired.([]interface{})
-		if !ok && desVal != nil {
+		if !ok && desired != nil {
 			return nil, fmt.Errorf("desired%s: expecting []interface, got %T", fieldPath, desired)
 		}
 		return mergeArray(fieldPath, destVal, lastVal, desVal)
